@@ -163,20 +163,23 @@ Lemma add_gap_f_spec fuel : forall gs off sz,
     (forall i g, In g (nth i (add_gap_f fuel gs off sz) []) -> In g (nth i gs []) \/ (In g new /\ gap_shape i g)) /\
     Forall (fun g => off <= fst g /\ fst g + snd g <= off + Z.max sz 0) new /\
     pairwise disj new /\
-    ((Z.to_nat sz <= fuel)%nat -> forall x, off <= x < off + sz -> covered_by x new).
+    ((Z.to_nat sz <= fuel)%nat -> forall x, off <= x < off + sz -> covered_by x new) /\
+    ((Z.to_nat sz <= fuel)%nat -> total new = Z.max sz 0).
 Proof.
   induction fuel; intros gs off sz Ho Hl; simpl.
-  - exists []. simpl. split; [auto|]. split; [auto|]. split; [auto|]. split; [auto|]. split; [auto|].
-    intros Hf x Hx. lia.
+  - exists []. simpl. split; [auto|]. split; [auto|]. split; [auto|]. split; [auto|]. split; [auto|]. split.
+    + intros Hf x Hx. lia.
+    + intros Hf. lia.
   - destruct (Z.leb_spec sz 0).
-    + exists []. simpl. split; [auto|]. split; [auto|]. split; [auto|]. split; [auto|]. split; [auto|].
-      intros Hf x Hx. lia.
+    + exists []. simpl. split; [auto|]. split; [auto|]. split; [auto|]. split; [auto|]. split; [auto|]. split.
+      * intros Hf x Hx. lia.
+      * intros Hf. lia.
     + destruct (gap_class off sz) as (gi, gsz) eqn:GC.
       destruct (gap_class_spec off sz gi gsz ltac:(lia) GC) as (E & R & M & L).
       set (gs1 := upd gi ((off, gsz) :: nth gi gs []) gs).
       assert (Hl1 : length gs1 = 7%nat) by (unfold gs1; rewrite upd_length; auto).
-      destruct (IHfuel gs1 (off + gsz) (sz - gsz) ltac:(lia) Hl1) as (new & P & L7 & In1 & F & PW & CV).
-      exists ((off, gsz) :: new). split; [|split; [auto|split; [|split; [|split]]]].
+      destruct (IHfuel gs1 (off + gsz) (sz - gsz) ltac:(lia) Hl1) as (new & P & L7 & In1 & F & PW & CV & SM).
+      exists ((off, gsz) :: new). split; [|split; [auto|split; [|split; [|split; [|split]]]]].
       * etransitivity; [apply P|].
         unfold gs1. rewrite !concat_flat_map.
         pose proof (flat_map_push_perm (fun x : list gap => x) gi (off, gsz) gs ltac:(lia) ltac:(intros; simpl; auto)) as Q.
@@ -192,6 +195,7 @@ Proof.
       * intros Hf x Hx. destruct (Z.lt_ge_cases x (off + gsz)).
         -- exists (off, gsz). simpl. split; auto. lia.
         -- destruct (CV ltac:(lia) x ltac:(lia)) as (g & Hg & Cg). exists g. split; [right; auto|auto].
+      * intros Hf. simpl. rewrite SM by lia. lia.
 Qed.
 
 Lemma add_gap_spec gs off sz :
@@ -202,13 +206,15 @@ Lemma add_gap_spec gs off sz :
     (forall i g, In g (nth i (add_gap gs off sz) []) -> In g (nth i gs []) \/ (In g new /\ gap_shape i g)) /\
     Forall (fun g => off <= fst g /\ fst g + snd g <= off + sz) new /\
     pairwise disj new /\
-    (forall x, off <= x < off + sz -> covered_by x new).
+    (forall x, off <= x < off + sz -> covered_by x new) /\
+    total new = sz.
 Proof.
   intros Ho Hs Hl. unfold add_gap.
-  destruct (add_gap_f_spec (Z.to_nat sz) gs off sz Ho Hl) as (new & A & B & C & D & E & F).
-  exists new. split; [auto|]. split; [auto|]. split; [auto|]. split; [|split; [auto|]].
+  destruct (add_gap_f_spec (Z.to_nat sz) gs off sz Ho Hl) as (new & A & B & C & D & E & F & G).
+  exists new. split; [auto|]. split; [auto|]. split; [auto|]. split; [|split; [auto|split]].
   - rewrite Z.max_l in D by lia. auto.
   - apply F. lia.
+  - rewrite G by lia. lia.
 Qed.
 
 (* ---------------------------------------------------------------- the gap loop *)
